@@ -46,6 +46,9 @@ CLAIMED = {
  "C15": ("explicit-state enumeration of transaction / fault sequences through the real Observer, TxnProcessor and OperationProvider against a store-state model; fault-position enumeration at DocumentHandler intake",
          "All sequences of <=3 (thorough 4) transactions over 8 kinds (2 valid batches, bad anchor, missing CAS content, count mismatch, duplicate suffix across index files, unknown namespace, unknown protocol version) x store failure position x unpublished-store failure x 2 delivery modes; plus all sequences of <=2 requests over 11 request kinds x queue / unpublished-store failure positions through a real DocumentHandler.",
          TB, "DESIGN.md §3 C15"),
+ "C16": ("explicit-state BFS over Add/tick/fault event sequences on the real Writer+cutter+MemQueue+OperationHandler in lock-step with a list reference model; stateless deviation-bounded schedule exploration of real goroutines under a cooperative scheduler (sync/atomic import-rewritten overlay) with linearization replay",
+         "(a) BFS to depth 5 (thorough 6) over 16 (26) events incl. CAS-write / anchor-write failure positions: ~5k (~140k) reference states, every transition replayed on a fresh real node and compared on queue content, handler invocations and anchored batches; (b) 4 concurrent scenarios (2-3 submitters + writer thread with explorer-chosen ticks and faults), every execution with <=2 (thorough 3) deviations (~30k executions, ~1M choice points): queue calls linearized at lock grants and replayed on a FIFO list, batch size/version invariants, no deadlock, fault-free drain, exactly-once.",
+         TB + " Unsynchronised accesses / weak memory are not modelled; the randomized -race runs named in the quantifier are a different technique (supporting only). MemQueue is volatile, so crash points are explored as failing steps.", "DESIGN.md §3 C16"),
  "C17": ("breadth-first explicit-state search over documents reachable through the real DocumentComposer, every patch list applied in every state, compared with an ordered-map reference",
          "BFS from {} over a 29-patch alphabet to depth 3 (thorough 4): 648 (1,526) distinct documents; in every state all 870 (thorough 25,259) patch lists of length <=2 (3) are applied and checked for purity, aliasing, determinism, atomicity, fold equivalence and equality with ref/doc; round trip through PatchesFromDocument for every qualifying reachable document.",
          TB, "DESIGN.md §3 C17"),
